@@ -258,7 +258,14 @@ class C14(Harness):
             z = W.pd.Series(inp["z"])
             t = IM(method=cell["method"], value=inp["value"] if cell["method"] == "constant" else None)
             r = t.fit(z).transform(z)
-            return {"vals": L(r.values), "idx": L(r.index)}
+            o = {"vals": L(r.values), "idx": L(r.index)}
+            if cell["method"] in ("mean", "median", "constant", "ffill", "bfill"):
+                # a two-column series: every column is imputed from its own values (second column: the first one shifted by 10 and reversed)
+                z2 = W.pd.DataFrame({"a": list(inp["z"]), "b": [v + 10 if not is_nan(v) else v for v in reversed(inp["z"])]})
+                t2 = IM(method=cell["method"], value=inp["value"] if cell["method"] == "constant" else None)
+                r2 = t2.fit(z2).transform(z2)
+                o["frame"] = {"a": L(r2["a"].values), "b": L(r2["b"].values)}
+            return o
         if k == "padding-int":
             X = pd.DataFrame({"c0": [pd.Series(np.array(inst[0], dtype="int64")) for inst in inp["x"]]})
             sym = is_sym(inp["fill"])
@@ -427,38 +434,44 @@ class C14(Harness):
         W = self._curW
         k = cell["kind"]
         if k == "imputer":
-            z = inp["z"]
-            n = len(z)
-            known = [i for i in range(n) if not is_nan(z[i])]
-            vals = out["vals"]
-            P.check("rows-in-input-order", len(vals) == n and out["idx"] == list(range(n)))
             m = {"pad": "ffill", "backfill": "bfill"}.get(cell["method"], cell["method"])
-            for i in range(n):
-                if not is_nan(z[i]):
-                    P.eq("imputer-rule", vals[i], z[i])
-                    continue
-                lo = [j for j in known if j < i]
-                hi = [j for j in known if j > i]
-                if m == "ffill":
-                    want = z[lo[-1]] if lo else z[hi[0]]
-                elif m == "bfill":
-                    want = z[hi[0]] if hi else z[lo[-1]]
-                elif m == "constant":
-                    want = inp["value"]
-                elif m == "mean":
-                    want = sum(z[j] for j in known) / len(known)
-                elif m == "median":
-                    from .c06 import wmedian
 
-                    want = wmedian([z[j] for j in known], None)
-                else:  # linear interpolation between the neighbouring observations, constant at the ends
-                    if lo and hi:
-                        a, b = lo[-1], hi[0]
-                        fr = Fraction(i - a, b - a) if P.sym else (i - a) / (b - a)
-                        want = z[a] + (z[b] - z[a]) * fr
-                    else:
+            def judge(z, vals, detail):
+                n = len(z)
+                known = [i for i in range(n) if not is_nan(z[i])]
+                P.check("rows-in-input-order", len(vals) == n, detail)
+                for i in range(min(n, len(vals))):
+                    if not is_nan(z[i]):
+                        P.eq("imputer-rule", vals[i], z[i], detail)
+                        continue
+                    lo = [j for j in known if j < i]
+                    hi = [j for j in known if j > i]
+                    if m == "ffill":
                         want = z[lo[-1]] if lo else z[hi[0]]
-                P.eq("imputer-rule", vals[i], want, {"method": m, "pos": i})
+                    elif m == "bfill":
+                        want = z[hi[0]] if hi else z[lo[-1]]
+                    elif m == "constant":
+                        want = inp["value"]
+                    elif m == "mean":
+                        want = sum(z[j] for j in known) / len(known)
+                    elif m == "median":
+                        from .c06 import wmedian
+
+                        want = wmedian([z[j] for j in known], None)
+                    else:  # linear interpolation between the neighbouring observations, constant at the ends
+                        if lo and hi:
+                            a, b = lo[-1], hi[0]
+                            fr = Fraction(i - a, b - a) if P.sym else (i - a) / (b - a)
+                            want = z[a] + (z[b] - z[a]) * fr
+                        else:
+                            want = z[lo[-1]] if lo else z[hi[0]]
+                    P.eq("imputer-rule", vals[i], want, dict(detail, method=m, pos=i))
+
+            P.check("rows-in-input-order", out["idx"] == list(range(len(inp["z"]))))
+            judge(inp["z"], out["vals"], {})
+            if "frame" in out:
+                judge(list(inp["z"]), out["frame"]["a"], {"column": "a of a two-column series"})
+                judge([v + 10 if not is_nan(v) else v for v in reversed(inp["z"])], out["frame"]["b"], {"column": "b of a two-column series"})
             return
         x = inp["x"]
         ni, nc = len(x), len(x[0])
